@@ -1,256 +1,65 @@
 import Percival.Driver.Loop
-import Percival.Spec.DS
+import Percival.Driver.Ds
+import Percival.Spec.DSMon
 /-!
-`pmodel dsmon`: the C12 monitor.  Reads every op of the `ds` protocol followed by `> <L1 part of the
-implementation's answer>` and judges the answer with `Spec.DS.*Admit` on the ideal objects (a byte list,
-a FIFO of records, a finite map with a counter, the set of objects in use).  Driver code: it only parses
-and calls the Spec.
+`pmodel dsmon`: the C12 / C14 monitor.  Thin by construction: the operation line and the part of the
+implementation's answer before ` | ` are parsed into `Spec.DSMon.Op` / `Ans`, `Spec.DSMon.monStep` judges them with
+`Spec.DS.*Admit` on the ideal objects, and the verdict is printed.
 -/
 namespace Percival.Driver.Dsmon
-open Percival.Driver Percival.Spec.DS
+open Percival.Driver Percival.Spec.DS Percival.Spec.DSMon
 
-def dataMax : Nat := 2^22
-def pat (seed i : Nat) : UInt8 := UInt8.ofNat ((seed + i * 7 + (i / 256) * 13) % 256)
-def patBytes (seed n : Nat) : List UInt8 := (List.range n).map (pat seed)
-
-structure S where
-  ea : Option EaIdeal := none
-  eqr : Nat := 1
-  eq : Option (List (List UInt8)) := none
-  sm : Option SmIdeal := none
-  inUse : List Nat := []
-
-/-- value of `key=value` among the answer tokens -/
+/-- value of `key=value` among the answer tokens (also used by `Driver/Afmon.lean`, `Driver/Upmon.lean`) -/
 def field (ans : List String) (key : String) : Option String :=
   ans.findSome? fun t => if t.startsWith (key ++ "=") then some ((t.drop (key.length + 1)).toString) else none
 
 def natField (ans : List String) (key : String) : Option Nat := (field ans key).bind String.toNat?
 def intField (ans : List String) (key : String) : Option Int := (field ans key).bind String.toInt?
 
-def stOf : List String → Option St
-  | "ok" :: _ => some .ok
-  | "fail" :: _ => some .fail
-  | _ => none
+def parseHead : String → Head
+  | "ok" => .ok | "fail" => .fail | "skip" => .skip | "end" => .end_ | _ => .other
 
-def mkRecLen (n : Nat) : Option RecLen := if h : 0 < n then some ⟨n, h⟩ else none
+def bytesFld (v : String) : BytesFld :=
+  match bytesOfHex v with | some b => .val b | none => .bad
 
-/-- the array answer: `st sz= al= rf= [n= out=]` -/
-def eaAns (ans : List String) : Option EaAns := do
-  let st ← stOf ans
-  let sz ← natField ans "sz"
-  let al ← natField ans "al"
-  let rfn ← natField ans "rf"
-  let out ← match field ans "out", natField ans "n" with
-    | some h, some n => (bytesOfHex h).map fun b => some (b, n)
-    | none, none => some none
-    | _, _ => none
-  pure { st := st, size := sz, alloc := al, refused := rfn > 0, out := out }
+def parseRecs (v : String) : Option (List (List UInt8)) :=
+  if v = "-" then some [] else (v.splitOn ";").mapM bytesOfHex
 
-def verdict (o : Option α) (why : String) : Option α × String :=
-  match o with
-  | some x => (some x, "ok")
-  | none => (none, "bad " ++ why)
+/-- one `key=value` field or flag word; the first occurrence of a key counts -/
+def addTok (a : Ans) (t : String) : Ans :=
+  match t.splitOn "=" with
+  | [k, v] =>
+    match k with
+    | "sz" => if a.sz.isNone then { a with sz := v.toNat? } else a
+    | "al" => if a.al.isNone then { a with al := v.toNat? } else a
+    | "rf" => if a.rf.isNone then { a with rf := v.toNat? } else a
+    | "n" => if a.n.isNone then { a with n := v.toNat? } else a
+    | "len" => if a.len.isNone then { a with len := v.toNat? } else a
+    | "num" => if a.num.isNone then { a with num := v.toInt? } else a
+    | "ptr" => if a.ptr.isNone then { a with ptr := v.toNat? } else a
+    | "obj" => if a.obj.isNone then { a with obj := v.toNat? } else a
+    | "live" => if a.live.isNone then { a with live := v.toNat? } else a
+    | "leaked" => if a.leaked.isNone then { a with leaked := v.toNat? } else a
+    | "out" => if a.out == .absent then { a with out := bytesFld v } else a
+    | "rec" => if a.recd == .absent then { a with recd := bytesFld v } else a
+    | "recs" => if a.recs.isNone then { a with recs := some (parseRecs v) } else a
+    | _ => a
+  | _ =>
+    if t = "null" then { a with null := true }
+    else if t = "INUSE" then { a with inuse := true }
+    else a
 
-def eaJudge (s : S) (i : EaIdeal) (op : EaOp) (ans : List String) (why : String)
-    (post : EaIdeal → EaIdeal := id) : S × String :=
-  match eaAns ans with
-  | none => (s, "bad unparsable answer")
-  | some a =>
-    match eaAdmit i op a with
-    | some i' => ({ s with ea := some (post i') }, "ok")
-    | none => (s, "bad " ++ why)
-
-def eqAns (ans : List String) : Option EqAns := do
-  let st ← stOf ans
-  let len ← natField ans "len"
-  let rfn ← natField ans "rf"
-  let got ← match field ans "rec" with
-    | some h => (bytesOfHex h).map some
-    | none => some none
-  pure { st := st, refused := rfn > 0, len := len, got := got }
-
-def eqJudge (s : S) (q : List (List UInt8)) (op : EqOp) (ans : List String) (why : String) : S × String :=
-  match eqAns ans with
-  | none => (s, "bad unparsable answer")
-  | some a =>
-    match eqAdmit q op a with
-    | some q' => ({ s with eq := some q' }, "ok")
-    | none => (s, "bad " ++ why)
-
-def smJudge (s : S) (x : SmIdeal) (op : SmOp) (ans : List String) (why : String) : S × String :=
-  match stOf ans, natField ans "rf" with
-  | some st, some rfn =>
-    let a : SmAns := { st := st, refused := rfn > 0, num := (intField ans "num").getD 0,
-                       ptr := (natField ans "ptr").getD 0 }
-    match smAdmit x op a with
-    | some x' => ({ s with sm := some x' }, "ok")
-    | none => (s, "bad " ++ why)
-  | _, _ => (s, "bad unparsable answer")
+def parseAns (toks : List String) : Ans :=
+  match toks with
+  | [] => {}
+  | h :: rest => rest.foldl addTok { head := parseHead h, ntoks := toks.length }
 
 def step (s : S) (op ans : List String) : S × String :=
-  match op with
-  | ["failat", _] | ["failfrom", _] | ["failoff"] => (s, if ans = ["ok"] then "ok" else "bad answer")
-  | ["end"] =>
-    if ans = ["end", "live=0", "leaked=0"] then ({}, "ok")
-    else (s, "bad memory still allocated after every object was released with its free call")
-  -- ---------------------------------------------------------------- elastic array
-  | ["ea_init", nrec, reclen, seed] =>
-    let n := nrec.toNat!; let r := reclen.toNat!
-    match ans with
-    | "fail" :: _ =>
-      if (natField ans "rf").getD 0 > 0 ∨ n * r > SIZE_MAX then ({ s with ea := none }, "ok")
-      else (s, "bad init failed although no allocation was refused")
-    | _ =>
-      match eaAns ans with
-      | some a =>
-        if n * r > dataMax then (s, "bad init succeeded for a size no allocation can hold") else
-        let i : EaIdeal := { bytes := patBytes seed.toNat! (n * r), loose := false }
-        if a.st = .ok ∧ eaShape i a then ({ s with ea := some i }, "ok")
-        else (s, "bad init: wrong size, or allocation not within a factor 4 of the contents")
-      | none => (s, "bad unparsable answer")
-  | opn :: args =>
-    if opn.startsWith "ea_" then
-      match s.ea with
-      | none => (s, if ans = ["skip"] then "ok" else "bad answer without an array")
-      | some i =>
-        match opn, args with
-        | "ea_resize", [nrec, reclen, seed] =>
-          match mkRecLen reclen.toNat! with
-          | none => (s, "bad op")
-          | some r =>
-            let n := nrec.toNat!
-            -- after a successful growth the caller fills the new records
-            let fill := if n * r.val ≤ dataMax then patBytes seed.toNat! (n * r.val - i.bytes.length) else []
-            eaJudge s i (.resize n r fill) ans "resize: wrong status/size, changed on failure, or outside factor 4"
-        | "ea_append", [nrec, reclen, seed] =>
-          match mkRecLen reclen.toNat! with
-          | none => (s, "bad op")
-          | some r =>
-            let n := nrec.toNat!
-            let data := if n ≤ dataMax / r.val then patBytes seed.toNat! (n * r.val) else [0]
-            eaJudge s i (.append data n r) ans "append: wrong status/size, changed on failure, or outside factor 4"
-        | "ea_shrink", [nrec, reclen] =>
-          match mkRecLen reclen.toNat! with
-          | none => (s, "bad op")
-          | some r => eaJudge s i (.shrink nrec.toNat! r) ans "shrink: wrong size, or outside factor 4 without a refused realloc"
-        | "ea_trunc", [] => eaJudge s i .truncate ans "truncate: spare space left, or failure without a refused realloc"
-        | "ea_get", [pos, reclen] =>
-          let inside := reclen.toNat! > 0 ∧ pos.toNat! * reclen.toNat! + reclen.toNat! ≤ i.bytes.length
-          if ans = ["skip"] then (s, if inside then "bad get skipped" else "ok") else
-          match mkRecLen reclen.toNat! with
-          | none => (s, "bad op")
-          | some r => eaJudge s i (.get pos.toNat! r) ans "get: record differs from the ideal array's"
-        | "ea_set", [pos, reclen, seed] =>
-          let inside := reclen.toNat! > 0 ∧ pos.toNat! * reclen.toNat! + reclen.toNat! ≤ i.bytes.length
-          if ans = ["skip"] then (s, if inside then "bad set skipped" else "ok") else
-          match mkRecLen reclen.toNat! with
-          | none => (s, "bad op")
-          | some r => eaJudge s i (.set pos.toNat! r (patBytes seed.toNat! r.val)) ans "set"
-        | "ea_getsize", [reclen] =>
-          match mkRecLen reclen.toNat! with
-          | some r => eaJudge s i (.getsize r) ans "getsize: not the ideal array's length divided by the record length"
-          | none => (s, "bad op")
-        | "ea_dump", [] =>
-          match eaAns ans with
-          | some a =>
-            if a.st = .ok ∧ a.out = some (i.bytes, i.bytes.length) ∧ eaShape i a then (s, "ok")
-            else (s, "bad contents differ from the ideal array's")
-          | none => (s, "bad unparsable answer")
-        | "ea_dup", [reclen] =>
-          match mkRecLen reclen.toNat! with
-          | none => (s, "bad op")
-          | some r => eaJudge s i (.exportdup r) ans "exportdup: copy differs from the contents, or failure without a refused malloc"
-        | "ea_export", [reclen] =>
-          match mkRecLen reclen.toNat! with
-          | none => (s, "bad op")
-          | some r =>
-            match ans with
-            | "ok" :: _ =>
-              match field ans "out", natField ans "n" with
-              | some h, some n =>
-                if bytesOfHex h = some i.bytes ∧ n = i.bytes.length / r.val then ({ s with ea := none }, "ok")
-                else (s, "bad export: the buffer handed over is not exactly the contents")
-              | _, _ => (s, "bad unparsable answer")
-            | _ =>
-              -- failure: a refused realloc, array unchanged
-              match eaAns ans with
-              | some a => if a.st = .fail ∧ a.refused ∧ eaShape i a then (s, "ok") else (s, "bad export failed without a refused realloc")
-              | none => (s, "bad unparsable answer")
-        | "ea_free", [] => ({ s with ea := none }, if ans = ["ok"] then "ok" else "bad answer")
-        | _, _ => (s, "bad op")
-    -- -------------------------------------------------------------- elastic queue
-    else if opn == "eq_init" then
-      match ans with
-      | "fail" :: _ => if (natField ans "rf").getD 0 > 0 then ({ s with eq := none }, "ok") else (s, "bad init failed although no allocation was refused")
-      | "ok" :: _ => if natField ans "len" = some 0 then ({ s with eq := some [], eqr := args.head!.toNat! }, "ok") else (s, "bad new queue not empty")
-      | _ => (s, "bad answer")
-    else if opn.startsWith "eq_" then
-      match s.eq with
-      | none => (s, if ans = ["skip"] then "ok" else "bad answer without a queue")
-      | some q =>
-        match opn, args with
-        | "eq_add", [seed] => eqJudge s q (.add (patBytes seed.toNat! s.eqr)) ans "add: wrong length, or failure without a refused allocation"
-        | "eq_del", [] => eqJudge s q .delete ans "delete: wrong length"
-        | "eq_len", [] => eqJudge s q .getlen ans "getlen differs from the ideal queue's"
-        | "eq_get", [pos] => eqJudge s q (.get pos.toNat!) ans "get: not the record the ideal FIFO holds at this position"
-        | "eq_set", [pos, seed] =>
-          if ans = ["skip"] then (s, if pos.toNat! < q.length then "bad set skipped" else "ok")
-          else eqJudge s q (.set pos.toNat! (patBytes seed.toNat! s.eqr)) ans "set"
-        | "eq_dump", [] =>
-          let want := if q.isEmpty then "-" else ";".intercalate (q.map hexOfBytes)
-          if ans.head? = some "ok" ∧ natField ans "len" = some q.length ∧ field ans "recs" = some want then (s, "ok")
-          else (s, "bad queue contents differ from the ideal FIFO's")
-        | "eq_free", [] => ({ s with eq := none }, if ans = ["ok"] then "ok" else "bad answer")
-        | _, _ => (s, "bad op")
-    -- -------------------------------------------------------------- sequential pointer map
-    else if opn == "sm_init" then
-      match ans with
-      | "fail" :: _ => if (natField ans "rf").getD 0 > 0 then ({ s with sm := none }, "ok") else (s, "bad init failed although no allocation was refused")
-      | "ok" :: _ => ({ s with sm := some smEmpty }, "ok")
-      | _ => (s, "bad answer")
-    else if opn.startsWith "sm_" then
-      match s.sm with
-      | none => (s, if ans = ["skip"] then "ok" else "bad answer without a map")
-      | some x =>
-        match opn, args with
-        | "sm_add", [p] => smJudge s x (.add p.toNat!) ans "add: numbers must be issued consecutively; failure only with a refused allocation and -1"
-        | "sm_get", [i] => smJudge s x (.get i.toInt!) ans "get: not the pointer stored under this number (NULL for any other number)"
-        | "sm_del", [i] => smJudge s x (.delete i.toInt!) ans "delete"
-        | "sm_min", [] => smJudge s x .getmin ans "getmin: not the least live number (-1 when empty)"
-        | "sm_free", [] => ({ s with sm := none }, if ans = ["ok"] then "ok" else "bad answer")
-        | _, _ => (s, "bad op")
-    -- -------------------------------------------------------------- object pool
-    else if opn == "mp_malloc" then
-      match ans.head?, natField ans "rf" with
-      | some "ok", some rfn =>
-        let a : MpAns := { obj := natField ans "obj", refused := rfn > 0 }
-        if ans.contains "INUSE" then (s, "bad the pool handed out an object that is still in use") else
-        if a.obj.isNone ∧ !ans.contains "null" then (s, "bad unparsable answer") else
-        match mpAdmit s.inUse .malloc a with
-        | some u => ({ s with inUse := u }, "ok")
-        | none => (s, "bad malloc: object still in use, or NULL without a refused allocation")
-      | _, _ => (s, "bad unparsable answer")
-    else if opn == "mp_free" then
-      match args with
-      | [id] =>
-        if ans = ["skip"] then (s, if s.inUse.contains id.toNat! then "bad free skipped" else "ok") else
-        match mpAdmit s.inUse (.free id.toNat!) { obj := none, refused := false } with
-        | some u => ({ s with inUse := u }, if ans.head? = some "ok" then "ok" else "bad answer")
-        | none => (s, "bad free of an object not in use")
-      | _ => (s, "bad op")
-    else if opn == "mp_freenth" then
-      if ans = ["skip"] then (s, if s.inUse.isEmpty then "ok" else "bad free skipped") else
-      match ans.head?, natField ans "obj" with
-      | some "ok", some x =>
-        match mpAdmit s.inUse (.free x) { obj := none, refused := false } with
-        | some u => ({ s with inUse := u }, "ok")
-        | none => (s, "bad free of an object not in use")
-      | _, _ => (s, "bad unparsable answer")
-    else if opn == "mp_exit" then
-      if ans = ["ok", "leaked=0"] then ({ s with inUse := [] }, "ok")
-      else (s, "bad the pool did not release every cached object at exit")
-    else (s, "bad op")
-  | _ => (s, "bad op")
+  match Ds.parseOp op with
+  | none => (s, "bad op")
+  | some o =>
+    let r := monStep s o (parseAns ans)
+    (r.1, match r.2 with | none => "ok" | some why => "bad " ++ why)
 
 def main (_args : List String) : IO UInt32 := loopMon ({} : S) step
 
